@@ -56,6 +56,7 @@ def catalog():
         "dim": ("dim", 6, "which parameters receive their distribution: kernel dimension comes from the q input or a component; no stated dimension keeps every dispersity parameter active", __import__("sa.rules.extra3", fromlist=["x"]).rule_c08_dim),
         "product-layout": ("product-layout", 100, "ProductKernel slice arithmetic = assembly order of the product's value vector (P block, S block, mode selectors, magnetic block)", __import__("sa.rules.c07", fromlist=["x"]).rule_layout),
         "minmax": ("minmax", 18, "min/max effective-radius modes select by the ordering of their own candidates (all models)", __import__("sa.rules.extra3", fromlist=["x"]).rule_c14_minmax),
+        "pymodel": ("pymodel", 20, "python functions of the model files: no uninitialised memory, no state kept, no in-place update of their (persistent) arguments", __import__("sa.rules.extra3", fromlist=["x"]).rule_c11_pymodel),
         "drivers": ("drivers", 50, "dll/OpenCL/CUDA drivers agree on kernel arguments, result size, read-back, kernel selection and q layout", gpu.rule_drivers),
         "gpu": ("gpu", 2000, "OpenCL configuration of the kernels: work-item bound, carried q-point sums, gated accumulation (all units)", gpu.make_gpu_rule()),
         "eqvol": ("eqvol", 15, "equivalent-volume-sphere radius mode agrees with form_volume in every model", c14.make_c_rule("R-C14-eqvol")),
